@@ -382,3 +382,36 @@ func vh_C11_server_serve_sweep() {
 		vAssert(f.closed == 1, "leftover file closed exactly once")
 	}
 }
+
+// the connection ends while an OPEN (or OPENDIR) is still in flight: the stream
+// is the request and then nothing. Serve waits for its workers before it
+// sweeps, so the object the handler hands out is closed exactly once by the time
+// Serve returns, on every schedule (added after seeded change C11-f, which swept
+// before the workers were done)
+//
+//verif:constoverride (*github.com/pkg/sftp.packetManager).workerChan 8 2
+func vh_C11_rs_serve_open_in_flight() {
+	vHErrKinds = 0
+	vHReset()
+	rs := vNewRequestServer(Handlers{vH{}, vH{}, vH{}, vH{}}, "/")
+	rs.pktMgr = newPktMgr(rs.serverConn)
+	var m interface{ MarshalBinary() ([]byte, error) }
+	if vNondetBool() {
+		m = &sshFxpOpenPacket{ID: 5, Path: "/f", Pflags: sshFxfRead}
+	} else {
+		m = &sshFxpOpendirPacket{ID: 5, Path: "/d"}
+	}
+	b, err := m.MarshalBinary()
+	vAssert(err == nil, "marshals")
+	n := len(b) - 4
+	b[0], b[1], b[2], b[3] = byte(n>>24), byte(n>>16), byte(n>>8), byte(n)
+	rs.serverConn.conn.Reader = &vReader{data: b}
+	serr := rs.Serve()
+	vAssert(serr != nil, "Serve reports the end of the stream")
+	vAssert(len(rs.openRequests) == 0, "table empty")
+	vAssert(len(vHObjs) == 1, "the handler was asked once")
+	for _, o := range vHObjs {
+		vAssert(o.closed == 1, "the object handed out for the request in flight is closed exactly once")
+		vAssert(o.ctx != nil && o.ctx.Err() != nil, "its context is cancelled at session end")
+	}
+}
